@@ -293,6 +293,18 @@ def thm_align():
     # without skip_errors a read error reaches the caller
     prim, sec, matches, fp, fsec = _align_case((1,), (), True, STRUCTURES[0])
     ensures(expect_raises(ReadError, lambda: list(fp.align(fsec, matches=matches))), id="align: a read error propagates without skip_errors")
+    # collocate_filesets hands the matches over as a numpy OBJECT ARRAY (np.array_split): same result as for the list
+    import numpy as _np
+    for structure in (STRUCTURES[0], STRUCTURES[3]):
+        prim, sec, matches, fp, fsec = _align_case((), (), True, structure)
+        arr = _np.empty(len(matches), dtype=object)
+        for q, m_ in enumerate(matches):
+            arr[q] = m_
+        out = list(fp.align(fsec, matches=arr, return_info=True, skip_errors=True))
+        ensures([(o[0][0], o[1][0]) for o in out] == [(prim[i], sec[j]) for i, row in enumerate(structure) for j in row],
+                id="align accepts an array of matches (as collocate_filesets passes them) [%d matches]" % len(matches))
+    prim, sec, matches, fp, fsec = _align_case((), (), True, STRUCTURES[2])
+    ensures(list(fp.align(fsec, matches=_np.empty(0, dtype=object))) == [], id="align with an empty ARRAY of matches yields nothing")
     # nothing matched: nothing is yielded
     prim, sec, matches, fp, fsec = _align_case((), (), True, STRUCTURES[2])
     ensures(list(fp.align(fsec, matches=[])) == [], id="align with an empty match list yields nothing")
